@@ -150,7 +150,7 @@ def run_case(case):
     rhos = [gen.rand_state(rng, d, ["mixed", "pure"][i % 2]) for d in dims]
     params = lib.tempo_params(dt, epsrel, kmax, tau)
     end = lib.end_time(start, dt, nsteps)
-    bound = C_BOUND * epsrel * max(scales)
+    bound = C_BOUND * epsrel * max(scales) * lib.pt_growth(nsteps)
     texp = start + dt * np.arange(nsteps + 1)
     violations, cells, monitors = [], [], {}
     obs = {}
